@@ -358,21 +358,40 @@ func keyLexesAsWritten(pt, key string) bool {
 	return len(ts) == 3 && ts[0].Kind == "PROPERTY" && ts[0].Text == prefix+key
 }
 
-func classify(kind string, n *qnode) string {
-	if n != nil {
+// does the condition, formatted on its own, parse back to itself?
+func condRoundTrips(w *world, c *qnode) bool {
+	q, err := contactql.ParseQuery(w.env, contactql.Stringify(c.build()), nil)
+	return err == nil && reflect.DeepEqual(dump(q.Root()), c)
+}
+
+// The class names the cause, found by experiment on the tree the failure is about: a condition that does not
+// survive formatting on its own is classified by its key (not writable as a property) before its value; when every
+// condition survives on its own the failure comes from their combination (a literal swallowing what follows).
+func classify(w *world, kind string, n *qnode, text string) string {
+	if n == nil {
+		return kind + ":other"
+	}
+	alone := false
+	for _, c := range n.conds(nil) {
+		if c.PT == "" || condRoundTrips(w, c) {
+			continue
+		}
+		alone = true
+		if !keyLexesAsWritten(c.PT, c.Key) || strings.ToLower(c.Key) != c.Key {
+			// a scheme that was not written as `urns.<scheme>` in the text came from an implicit condition
+			if c.PT == "urn" && !urns.IsValidScheme(c.Key) && !strings.Contains(strings.ToLower(text), "urns."+c.Key) {
+				return kind + ":implicit-urn-unknown-scheme"
+			}
+			return kind + ":property-key-lowercases-outside-grammar-letters"
+		}
+		if strings.HasSuffix(c.Value, `\`) {
+			return kind + ":value-ending-in-backslash"
+		}
+	}
+	if !alone {
 		for _, c := range n.conds(nil) {
 			if strings.HasSuffix(c.Value, `\`) {
 				return kind + ":value-ending-in-backslash"
-			}
-		}
-		for _, c := range n.conds(nil) {
-			if c.PT == "urn" && !urns.IsValidScheme(c.Key) && (!keyLexesAsWritten(c.PT, c.Key) || strings.ToLower(c.Key) != c.Key) {
-				return kind + ":implicit-urn-unknown-scheme"
-			}
-		}
-		for _, c := range n.conds(nil) {
-			if c.PT != "" && !keyLexesAsWritten(c.PT, c.Key) {
-				return kind + ":property-key-lowercases-outside-grammar-letters"
 			}
 		}
 	}
@@ -398,15 +417,15 @@ func checkReparse(res *hx.Result, w *world, stream, text string, o *obs) {
 	q2, err := contactql.ParseQuery(w.env, o.Printed, nil)
 	in := failIn{Stream: stream, Redact: w.redact, Text: text, Printed: o.Printed, Tree: o.Root}
 	if err != nil {
-		res.Fail(classify("reparse", o.Root), in, fmt.Sprintf("%q parses; it formats to %q, which does not parse: %v", text, o.Printed, err))
+		res.Fail(classify(w, "reparse", o.Root, text), in, fmt.Sprintf("%q parses; it formats to %q, which does not parse: %v", text, o.Printed, err))
 		return
 	}
 	if got := dump(q2.Root()); !reflect.DeepEqual(got, o.Root) {
-		res.Fail(classify("reparse", o.Root), in, fmt.Sprintf("%q parses to %s; it formats to %q, which parses to %s", text, o.Root, o.Printed, got))
+		res.Fail(classify(w, "reparse", o.Root, text), in, fmt.Sprintf("%q parses to %s; it formats to %q, which parses to %s", text, o.Root, o.Printed, got))
 		return
 	}
 	if p2 := q2.String(); p2 != o.Printed {
-		res.Fail(classify("reparse", o.Root), in, fmt.Sprintf("formatting is not stable: %q then %q", o.Printed, p2))
+		res.Fail(classify(w, "reparse", o.Root, text), in, fmt.Sprintf("formatting is not stable: %q then %q", o.Printed, p2))
 	}
 }
 
@@ -762,11 +781,11 @@ func runCqlStreams(o *hx.Opts, res *hx.Result, r *hx.Rand) {
 		in := failIn{Stream: "tree", Redact: redact, Text: text, Tree: t}
 		switch ob.Kind {
 		case "syntax":
-			res.Fail(classify("programmatic", t), in, fmt.Sprintf("the tree %s formats to %q, which does not parse (syntax error)", t, text))
+			res.Fail(classify(w, "programmatic", t, text), in, fmt.Sprintf("the tree %s formats to %q, which does not parse (syntax error)", t, text))
 		case "ok":
 			want := dump(built.Simplify())
 			if !reflect.DeepEqual(ob.Root, want) {
-				res.Fail(classify("programmatic", t), in, fmt.Sprintf("the tree %s formats to %q, which parses to %s instead of %s", t, text, ob.Root, want))
+				res.Fail(classify(w, "programmatic", t, text), in, fmt.Sprintf("the tree %s formats to %q, which parses to %s instead of %s", t, text, ob.Root, want))
 			}
 		default:
 			res.Dist("tree:not-a-valid-query(skipped):" + ob.Code)
